@@ -227,12 +227,18 @@ static void join_all(World &w) {
         if (w.s[i].launching && !ctx.failed) check_thread_finished(w, w.s[i], "after join_all_managed (transitively launched)");
     // what may still be counted: participants (threads using the increment/decrement pair directly) that are between
     // their increment and their decrement right now
-    size_t lo = w.p_inc_done - w.p_dec_started, hi = w.p_inc_started - w.p_dec_done;
+    // The read itself is a sequence of decision points, so a participant may start - or start AND finish - while it runs.
+    // Surely counted: those whose increment had returned before the read began and whose decrement had not been entered
+    // when it ended.  Possibly counted: those whose increment had been entered when the read ended, minus those whose
+    // decrement had returned before it began.  (Sampling "inside now" before and after the read is not enough: a
+    // participant that does both inside the read is in neither sample - found by seed 309, see DESIGN 9.3.)
+    size_t inc_done0 = w.p_inc_done, dec_done0 = w.p_dec_done;
     size_t cnt = aws_thread_get_managed_thread_count();
-    size_t lo2 = w.p_inc_done - w.p_dec_started, hi2 = w.p_inc_started - w.p_dec_done;
-    if (cnt < std::min(lo, lo2) || cnt > std::max(hi, hi2))
-        ctx.note_fail(fmt("managed thread count is %zu after join_all_managed (%zu..%zu participants are inside their increment/decrement bracket)", cnt,
-                          std::min(lo, lo2), std::max(hi, hi2)));
+    size_t inc_started1 = w.p_inc_started, dec_started1 = w.p_dec_started;
+    size_t lo = inc_done0 > dec_started1 ? inc_done0 - dec_started1 : 0, hi = inc_started1 - dec_done0;
+    if (cnt < lo || cnt > hi)
+        ctx.note_fail(fmt("managed thread count is %zu after join_all_managed (%zu..%zu participants can be inside their increment/decrement bracket)", cnt,
+                          lo, hi));
 }
 
 static void join_one(World &w, Slot &s) {
